@@ -748,13 +748,13 @@ impl World for LedgerCheck {
             "ok.Redeem",
             "ok.Stake",
             "ok.Unstake",
-            "ok.Claim",
             "ok.Round",
         ];
         match self.id {
             "C02" => v.extend(["sweep.transactions", "sweep.commit_failure", "sweep.reject", "c02.natural_or_injected_failure_checked"]),
-            "C04" => v.extend(["scan.c04_full_scans"]),
-            "C51" => v.extend(["c51.locked_substates_rewritten_identically", "c51.newly_locked_substates", "c51.update_of_locked_state_refused", "ok.LockMetadata", "ok.LockOwnerRole", "ok.SetOwnerRole"]),
+            "C04" => v.extend(["scan.c04_full_scans", "ok.Claim"]),
+            "C03" => v.extend(["ok.Claim"]),
+            "C51" => v.extend(["c51.newly_locked_substates", "c51.update_of_locked_state_refused", "ok.LockMetadata", "ok.LockOwnerRole", "ok.SetOwnerRole"]),
             "C06" => v.extend(["c06.commits_checked", "c06.dedicated_payer_commits", "c06.tipped_commits", "probe.contingent_lock_on_failed_tx", "probe.fee_probes", "probe.reject_with_lock_below_cost", "probe.commit_with_lock_at_or_above_cost", "probe.commit_with_lock_below_reference_cost"]),
             "C05" => v.extend(["scan.c05_full_scans"]),
             "C49" => v.extend([
